@@ -246,6 +246,42 @@ fn custom_ids(cfg: &Cfg) {
             sys::close(efd);
         }
     }
+    // listeners woken by something else than input readiness: output readiness (an eventfd is always
+    // writable) and a hang-up (the read end of a pipe whose writer is closed) - delivered with their id too
+    for (nq, masks, worker) in [(1usize, vec![0xffffu64], 0usize), (2, vec![0b01, 0b10], 1)] {
+        for (kind, id) in [("output-ready", nq as u64 + 1), ("output-ready", 255), ("hang-up", nq as u64 + 2), ("hang-up", 65535)] {
+            let bc = BCfg { num_queues: nq, masks: masks.clone(), ..BCfg::default() };
+            let s: Sess<VringMutex<dmn::Mem>> = Sess::new(bc);
+            let h = s.daemon.get_epoll_handlers();
+            let (fd, other, evset) = if kind == "output-ready" {
+                (sys::eventfd(0, libc::EFD_NONBLOCK), -1, EventSet::OUT)
+            } else {
+                let mut p = [0i32; 2];
+                assert_eq!(unsafe { libc::pipe2(p.as_mut_ptr(), libc::O_CLOEXEC | libc::O_NONBLOCK) }, 0);
+                (p[0], p[1], EventSet::IN)
+            };
+            let before = s.events().len();
+            let r = h[worker].register_listener(fd, evset, id);
+            if other >= 0 {
+                sys::close(other); // the writer goes away: EPOLLHUP without EPOLLIN
+            }
+            let delivered = r.is_ok() && sys::wait_until(3000, || s.events().len() > before || !sys::threads().iter().any(|t| t.0 == s.workers[worker].tid));
+            let _ = h[worker].unregister_listener(fd, evset, id);
+            let evs: Vec<dmn::Ev> = s.events()[before..].iter().take(3).cloned().collect();
+            report::eval(1);
+            report::count("custom_ids.other_wakeups", 1);
+            report::distinct_str(&format!("customid-wakeup:{nq}:{kind}:{id}"));
+            let detail = jo! {"num_queues" => nq, "worker" => worker, "id" => id, "woken_by" => kind, "register_result" => format!("{r:?}"), "first_events" => format!("{evs:?}")};
+            if r.is_err() {
+                report::violation(&format!("C17:custom-listener:valid-id-refused:{kind}"), detail, cfg.replay("custom"));
+            } else if !delivered || evs.is_empty() {
+                report::violation(&format!("C17:custom-listener:accepted-but-never-delivered:{kind}"), detail, cfg.replay("custom"));
+            } else if evs[0].device_event as u64 != id || evs[0].thread_id != worker {
+                report::violation(&format!("C17:custom-listener:delivered-with-other-id:{kind}"), detail, cfg.replay("custom"));
+            }
+            sys::close(fd);
+        }
+    }
     // the reserved range is the device's ([0, num_queues]), not the worker's own ring count: on every
     // worker of a split configuration each id up to num_queues must be refused
     for (nq, masks) in [(3usize, vec![0b001u64, 0b110]), (3, vec![0b100, 0b011]), (4, vec![0b0001, 0b0010, 0b1100]), (2, vec![0b00, 0b11])] {
